@@ -1,1 +1,583 @@
-From Jawk Require Import Base.
+(* ChainProofs.v — the processing chain refines the pipeline specification (C03, C08, C09, C10, C11, C14). *)
+From Jawk Require Import Base F64 Json Ctx Printer Chain PipelineSpec SorterProofs.
+From Coq Require Import Lia.
+Arguments N.add : simpl never. Arguments N.sub : simpl never. Arguments N.eqb : simpl never.
+Arguments N.ltb : simpl never. Arguments N.leb : simpl never.
+
+Section ChainProofs.
+Variable E : Type.
+Variable get : E -> ctx E -> option json.
+Notation ctx := (ctx E).
+Notation stage := (stage E).
+Notation sstate := (sstate E).
+Notation process := (process E get).
+Notation complete := (complete E get).
+Notation run := (run E get).
+Definition feed (sts : list stage) := feed_with E (process sts).
+
+(* ---------- feed ---------- *)
+Lemma feed_nil sts ss : feed sts [] ss = (ss, [], Continue).
+Proof. reflexivity. Qed.
+
+Lemma feed_cons sts c t ss :
+  feed sts (c :: t) ss =
+  let '(ss1, o, d) := process sts ss c in
+  match d with
+  | Break => (ss1, o, Break)
+  | Continue => let '(ss2, o2, d2) := feed sts t ss1 in (ss2, o ++ o2, d2)
+  end.
+Proof. reflexivity. Qed.
+Opaque feed.
+
+Lemma feed_app sts a b ss :
+  feed sts (a ++ b) ss =
+  let '(ss1, o1, d1) := feed sts a ss in
+  match d1 with
+  | Break => (ss1, o1, Break)
+  | Continue => let '(ss2, o2, d2) := feed sts b ss1 in (ss2, o1 ++ o2, d2)
+  end.
+Proof.
+  revert ss. induction a as [|c a IH]; intros ss.
+  - cbn [app]. rewrite feed_nil. destruct (feed sts b ss) as [[ss2 o2] d2]. reflexivity.
+  - cbn [app]. rewrite !feed_cons. destruct (process sts ss c) as [[ss1 o] d]. destruct d.
+    + rewrite IH. destruct (feed sts a ss1) as [[ss2 o2] d2]. destruct d2.
+      * destruct (feed sts b ss2) as [[ss3 o3] d3]. rewrite app_assoc. reflexivity.
+      * reflexivity.
+    + reflexivity.
+Qed.
+
+Lemma run_feed sts ss cs :
+  run sts ss cs = let '(ss', o, _) := feed sts cs ss in o ++ complete sts ss'.
+Proof.
+  revert ss. induction cs as [|c cs IH]; intros ss.
+  - reflexivity.
+  - cbn [Chain.run]. rewrite feed_cons. destruct (process sts ss c) as [[ss1 o] d]. destruct d.
+    + rewrite IH. destruct (feed sts cs ss1) as [[ss2 o2] d2]. rewrite app_assoc. reflexivity.
+    + reflexivity.
+Qed.
+
+Lemma feed_one sts c ss : feed sts [c] ss = process sts ss c.
+Proof.
+  rewrite feed_cons. destruct (process sts ss c) as [[ss1 o] d]. destruct d; [|reflexivity].
+  rewrite feed_nil, app_nil_r. reflexivity.
+Qed.
+
+(* ---------- stateless streaming stages ---------- *)
+(* a stage that maps each context to a list of contexts for its successor, forwards the decision
+   and forwards `complete` *)
+Definition stateless_sim (s : stage) (f : ctx -> list ctx) : Prop :=
+  forall sts st ss c,
+    process (s :: sts) (st :: ss) c = (let '(ss2, o, d) := feed sts (f c) ss in (st :: ss2, o, d))
+    /\ forall ss2, complete (s :: sts) (st :: ss2) = complete sts ss2.
+
+Lemma stateless_feed s f : stateless_sim s f -> forall sts st cs ss,
+  feed (s :: sts) cs (st :: ss) = let '(ss2, o, d) := feed sts (flat_map f cs) ss in (st :: ss2, o, d).
+Proof.
+  intros H sts st cs. induction cs as [|c cs IH]; intros ss.
+  - reflexivity.
+  - rewrite feed_cons. cbn [flat_map]. rewrite feed_app.
+    destruct (H sts st ss c) as [-> _].
+    destruct (feed sts (f c) ss) as [[ss1 o] d]. destruct d; [|reflexivity].
+    rewrite IH. destruct (feed sts (flat_map f cs) ss1) as [[ss2 o2] d2]. reflexivity.
+Qed.
+
+Lemma stateless_run s f : stateless_sim s f -> forall sts st cs ss,
+  run (s :: sts) (st :: ss) cs = run sts ss (flat_map f cs).
+Proof.
+  intros H sts st cs ss. rewrite !run_feed, (stateless_feed s f H).
+  destruct (feed sts (flat_map f cs) ss) as [[ss2 o] d].
+  destruct (H sts st ss2 (new_empty)) as [_ ->]. reflexivity.
+Qed.
+
+Definition f_preset vs ds (c : ctx) : list ctx := [with_definitions (with_variables c vs) ds].
+Definition f_split e (c : ctx) : list ctx :=
+  match get e c with Some (JArr l) => map (with_input c) l | _ => [] end.
+Definition p_filter e (c : ctx) : bool := match get e c with Some (JBool true) => true | _ => false end.
+Definition f_filter e (c : ctx) : list ctx := if p_filter e c then [c] else [].
+Definition f_select n e (c : ctx) : list ctx := [with_result c n (get e c)].
+
+Lemma sim_preset vs ds : stateless_sim (SPreSet vs ds) (f_preset vs ds).
+Proof.
+  intros sts st ss c. split; [|reflexivity].
+  unfold f_preset. rewrite feed_one. reflexivity.
+Qed.
+Lemma sim_select n e : stateless_sim (SSelect n e) (f_select n e).
+Proof.
+  intros sts st ss c. split; [|reflexivity].
+  unfold f_select. rewrite feed_one. reflexivity.
+Qed.
+Lemma sim_filter e : stateless_sim (SFilter e) (f_filter e).
+Proof.
+  intros sts st ss c. split; [|reflexivity].
+  unfold f_filter, p_filter. cbn [Chain.process].
+  destruct (get e c) as [[| [|] | | | |]|]; try reflexivity.
+  rewrite feed_one. reflexivity.
+Qed.
+Lemma sim_split e : stateless_sim (SSplit e) (f_split e).
+Proof.
+  intros sts st ss c. split; [|reflexivity].
+  unfold f_split. cbn [Chain.process].
+  destruct (get e c) as [[| | | | |l]|]; try reflexivity.
+Qed.
+
+Lemma flat_map_single {A B} (g : A -> B) l : flat_map (fun x => [g x]) l = map g l.
+Proof. induction l as [|x l IH]; cbn; [reflexivity|]. rewrite IH. reflexivity. Qed.
+Lemma flat_map_filter {A} (p : A -> bool) l : flat_map (fun x => if p x then [x] else []) l = filter p l.
+Proof. induction l as [|x l IH]; cbn; [reflexivity|]. rewrite IH. destruct (p x); reflexivity. Qed.
+
+Lemma run_preset vs ds sts st ss cs :
+  run (SPreSet vs ds :: sts) (st :: ss) cs = run sts ss (stage_spec E get (SPreSet vs ds) cs).
+Proof. rewrite (stateless_run _ _ (sim_preset vs ds)). unfold f_preset. rewrite flat_map_single. reflexivity. Qed.
+Lemma run_select n e sts st ss cs :
+  run (SSelect n e :: sts) (st :: ss) cs = run sts ss (stage_spec E get (SSelect n e) cs).
+Proof. rewrite (stateless_run _ _ (sim_select n e)). unfold f_select. rewrite flat_map_single. reflexivity. Qed.
+Lemma run_filter e sts st ss cs :
+  run (SFilter e :: sts) (st :: ss) cs = run sts ss (stage_spec E get (SFilter e) cs).
+Proof. rewrite (stateless_run _ _ (sim_filter e)). unfold f_filter. rewrite flat_map_filter. reflexivity. Qed.
+Lemma run_split e sts st ss cs :
+  run (SSplit e :: sts) (st :: ss) cs = run sts ss (stage_spec E get (SSplit e) cs).
+Proof. rewrite (stateless_run _ _ (sim_split e)). reflexivity. Qed.
+
+(* ---------- never answering Break ---------- *)
+Fixpoint nb (sts : list stage) : bool :=
+  match sts with
+  | [] => true
+  | SLimit _ (Some _) :: _ => false
+  | (SSort _ _ _ | SGroup _ | SMerge) :: _ => true
+  | _ :: t => nb t
+  end.
+
+Lemma feed_decision_nb sts : (forall ss c, snd (process sts ss c) = Continue) ->
+  forall cs ss, snd (feed sts cs ss) = Continue.
+Proof.
+  intros H cs. induction cs as [|c cs IH]; intros ss; [reflexivity|].
+  rewrite feed_cons. specialize (H ss c). destruct (process sts ss c) as [[ss1 o] d]. cbn in H. subst d.
+  specialize (IH ss1). destruct (feed sts cs ss1) as [[ss2 o2] d2]. exact IH.
+Qed.
+
+Lemma nb_continue sts : nb sts = true -> forall ss c, snd (process sts ss c) = Continue.
+Proof.
+  induction sts as [|s sts IH]; intros Hnb ss c; [reflexivity|].
+  destruct s as [vs ds|e|e|n e| |k dir cap|sk tk|k| ]; cbn [nb] in Hnb.
+  - destruct ss as [|st ss]; [reflexivity|]. destruct (sim_preset vs ds sts st ss c) as [-> _].
+    pose proof (feed_decision_nb sts (IH Hnb) (f_preset vs ds c) ss) as H.
+    destruct (feed sts (f_preset vs ds c) ss) as [[? ?] ?]; exact H.
+  - destruct ss as [|st ss]; [reflexivity|]. destruct (sim_split e sts st ss c) as [-> _].
+    pose proof (feed_decision_nb sts (IH Hnb) (f_split e c) ss) as H.
+    destruct (feed sts (f_split e c) ss) as [[? ?] ?]; exact H.
+  - destruct ss as [|st ss]; [reflexivity|]. destruct (sim_filter e sts st ss c) as [-> _].
+    pose proof (feed_decision_nb sts (IH Hnb) (f_filter e c) ss) as H.
+    destruct (feed sts (f_filter e c) ss) as [[? ?] ?]; exact H.
+  - destruct ss as [|st ss]; [reflexivity|]. destruct (sim_select n e sts st ss c) as [-> _].
+    pose proof (feed_decision_nb sts (IH Hnb) (f_select n e c) ss) as H.
+    destruct (feed sts (f_select n e c) ss) as [[? ?] ?]; exact H.
+  - destruct ss as [|[ |seen| | | | ] ss]; try reflexivity. cbn [Chain.process].
+    destruct (mem_key (Ctx.key c) seen); [reflexivity|].
+    specialize (IH Hnb ss c). destruct (process sts ss c) as [[? ?] ?]; exact IH.
+  - destruct ss as [|[ | |sp data| | | ] ss]; try reflexivity. rewrite process_sort. reflexivity.
+  - destruct tk as [lim|]; [discriminate|].
+    destruct ss as [|[ | | |skd pd| | ] ss]; try reflexivity. cbn [Chain.process].
+    destruct (N.ltb skd sk); [reflexivity|].
+    specialize (IH Hnb ss c). destruct (process sts ss c) as [[? ?] ?]; exact IH.
+  - destruct ss as [|[ | | | |data| ] ss]; try reflexivity. cbn [Chain.process].
+    destruct (get k c) as [[]|]; reflexivity.
+  - destruct ss as [|[ | | | | |data] ss]; reflexivity.
+Qed.
+
+(* ---------- unique ---------- *)
+Lemma feed_uniq sts cs : forall seen ss,
+  exists seen', feed (SUniq :: sts) cs (StUniq seen :: ss) =
+    let '(ss2, o, d) := feed sts (dedup_from E seen cs) ss in (StUniq seen' :: ss2, o, d).
+Proof.
+  induction cs as [|c cs IH]; intros seen ss.
+  - exists seen. reflexivity.
+  - rewrite feed_cons. cbn [Chain.process dedup_from]. unfold mem_key.
+    destruct (existsb (ckey_eqb (Ctx.key c)) seen) eqn:Hm.
+    + destruct (IH seen ss) as [seen' ->]. exists seen'.
+      destruct (feed sts (dedup_from E seen cs) ss) as [[ss2 o] d]. reflexivity.
+    + rewrite feed_cons. destruct (process sts ss c) as [[ss1 o] d]. destruct d.
+      * destruct (IH (Ctx.key c :: seen) ss1) as [seen' ->]. exists seen'.
+        destruct (feed sts (dedup_from E (Ctx.key c :: seen) cs) ss1) as [[ss2 o2] d2]. reflexivity.
+      * exists (Ctx.key c :: seen). reflexivity.
+Qed.
+
+Lemma run_uniq sts ss cs :
+  run (SUniq :: sts) (StUniq [] :: ss) cs = run sts ss (stage_spec E get SUniq cs).
+Proof.
+  rewrite !run_feed. destruct (feed_uniq sts cs [] ss) as [seen' ->]. cbn [stage_spec].
+  destruct (feed sts (dedup_from E [] cs) ss) as [[ss2 o] d]. reflexivity.
+Qed.
+
+(* ---------- skip / take ---------- *)
+(* the limiter as a pure function of its counters *)
+Fixpoint limit_from (sk : N) (tk : option N) (skd pd : N) (cs : list ctx) : list ctx :=
+  match cs with
+  | [] => []
+  | c :: t =>
+      if N.ltb skd sk then limit_from sk tk (skd + 1) pd t
+      else match tk with
+           | Some lim => if N.leb lim pd then [] else c :: limit_from sk tk skd (pd + 1) t
+           | None => c :: limit_from sk tk skd pd t
+           end
+  end.
+
+Lemma run_nil sts ss : run sts ss [] = complete sts ss.
+Proof. reflexivity. Qed.
+
+Lemma run_cons_nb sts ss c cs : nb sts = true ->
+  run sts ss (c :: cs) = let '(ss1, o, _) := process sts ss c in o ++ run sts ss1 cs.
+Proof.
+  intros Hnb. cbn [Chain.run]. pose proof (nb_continue sts Hnb ss c) as H.
+  destruct (process sts ss c) as [[ss1 o] d]. cbn in H. subst d. reflexivity.
+Qed.
+
+Lemma run_limit_from sk tk sts cs : nb sts = true -> forall skd pd ss,
+  run (SLimit sk tk :: sts) (StLimit skd pd :: ss) cs = run sts ss (limit_from sk tk skd pd cs).
+Proof.
+  intros Hnb. induction cs as [|c cs IH]; intros skd pd ss.
+  - reflexivity.
+  - cbn [Chain.run Chain.process limit_from].
+    destruct (N.ltb skd sk) eqn:Hsk.
+    + cbn [app]. apply IH.
+    + destruct tk as [lim|].
+      * destruct (N.leb lim pd) eqn:Hl.
+        { reflexivity. }
+        rewrite (run_cons_nb sts ss c _ Hnb).
+        destruct (process sts ss c) as [[ss1 o] d].
+        destruct (N.leb lim (pd + 1)) eqn:Hl2.
+        { f_equal. destruct cs as [|c2 cs2]; [reflexivity|].
+          cbn [limit_from]. rewrite Hsk, Hl2. reflexivity. }
+        { f_equal. apply IH. }
+      * rewrite (run_cons_nb sts ss c _ Hnb). pose proof (nb_continue sts Hnb ss c) as Hd.
+        destruct (process sts ss c) as [[ss1 o] d]. cbn in Hd. subst d. f_equal. apply IH.
+Qed.
+
+Lemma limit_from_spec sk tk cs : forall skd pd, (skd <= sk)%N ->
+  limit_from sk tk skd pd cs =
+  match tk with
+  | Some lim => firstn (N.to_nat (lim - pd)) (skipn (N.to_nat (sk - skd)) cs)
+  | None => skipn (N.to_nat (sk - skd)) cs
+  end.
+Proof.
+  induction cs as [|c cs IH]; intros skd pd Hle.
+  - destruct tk; rewrite ?skipn_nil, ?firstn_nil; reflexivity.
+  - cbn [limit_from]. destruct (N.ltb_spec skd sk) as [Hlt|Hge].
+    + rewrite IH by lia.
+      replace (N.to_nat (sk - skd)) with (S (N.to_nat (sk - (skd + 1)))) by lia.
+      reflexivity.
+    + replace (N.to_nat (sk - skd)) with O by lia. cbn [skipn].
+      destruct tk as [lim|].
+      * destruct (N.leb_spec lim pd) as [Hl|Hl].
+        { replace (N.to_nat (lim - pd)) with O by lia. reflexivity. }
+        { rewrite IH by lia. replace (N.to_nat (sk - skd)) with O by lia. cbn [skipn].
+          replace (N.to_nat (lim - pd)) with (S (N.to_nat (lim - (pd + 1)))) by lia. reflexivity. }
+      * rewrite IH by lia. replace (N.to_nat (sk - skd)) with O by lia. reflexivity.
+Qed.
+
+Lemma run_limit sk tk sts ss cs : nb sts = true ->
+  run (SLimit sk tk :: sts) (StLimit 0 0 :: ss) cs = run sts ss (stage_spec E get (SLimit sk tk) cs).
+Proof.
+  intros Hnb. rewrite (run_limit_from sk tk sts cs Hnb), limit_from_spec by lia.
+  cbn [stage_spec]. unfold limit_spec. rewrite N.sub_0_r. destruct tk as [lim|]; [rewrite N.sub_0_r|]; reflexivity.
+Qed.
+
+(* ---------- buffering stages: what their complete() feeds downstream ---------- *)
+Notation feed_all := (feed_all E get).
+
+Lemma feed_all_cons sts ss c cs :
+  feed_all sts ss (c :: cs) =
+  let '(ss1, o, _) := process sts ss c in let '(ss2, o2) := feed_all sts ss1 cs in (ss2, o ++ o2).
+Proof. reflexivity. Qed.
+
+(* after a stage has answered Break, feeding it more changes nothing *)
+Definition dead_after_break (T : list stage) : Prop :=
+  forall ss c ss1 o, process T ss c = (ss1, o, Break) -> forall l, feed_all T ss1 l = (ss1, []).
+
+Lemma dab_nb T : nb T = true -> dead_after_break T.
+Proof.
+  intros Hnb ss c ss1 o H. pose proof (nb_continue T Hnb ss c) as Hc. rewrite H in Hc. discriminate.
+Qed.
+
+Lemma dab_limit sk lim post : dead_after_break (SLimit sk (Some lim) :: post).
+Proof.
+  intros ss c ss1 o H.
+  assert (Hdead : exists skd pd ss', ss1 = StLimit skd pd :: ss' /\ N.ltb skd sk = false /\ N.leb lim pd = true).
+  { destruct ss as [|[ | | |skd pd| | ] ss']; cbn [Chain.process] in H; try discriminate.
+    destruct (N.ltb skd sk) eqn:Hsk; [discriminate|].
+    destruct (N.leb lim pd) eqn:Hl.
+    - inversion H; subst. eauto 6.
+    - destruct (process post ss' c) as [[ss2 o2] d2].
+      destruct (N.leb lim (pd + 1)) eqn:Hl2; [|discriminate].
+      inversion H; subst. eauto 6. }
+  destruct Hdead as (skd & pd & ss' & -> & Hsk & Hl).
+  intros l. induction l as [|x l IH]; [reflexivity|].
+  rewrite feed_all_cons. cbn [Chain.process]. rewrite Hsk, Hl. rewrite IH. reflexivity.
+Qed.
+
+Definition good_tail (T : list stage) : Prop :=
+  nb T = true \/ exists s lim post, T = SLimit s (Some lim) :: post.
+
+Lemma good_tail_dab T : good_tail T -> dead_after_break T.
+Proof. intros [H|(s & lim & post & ->)]; [apply dab_nb; exact H|apply dab_limit]. Qed.
+
+Lemma run_feed_all T : dead_after_break T -> forall l ss,
+  run T ss l = let '(ss2, o) := feed_all T ss l in o ++ complete T ss2.
+Proof.
+  intros Hd l. induction l as [|c l IH]; intros ss; [reflexivity|].
+  cbn [Chain.run]. rewrite feed_all_cons.
+  destruct (process T ss c) as [[ss1 o] d] eqn:Hp. destruct d.
+  - rewrite IH. destruct (feed_all T ss1 l) as [ss2 o2]. rewrite app_assoc. reflexivity.
+  - rewrite (Hd _ _ _ _ Hp l). rewrite app_nil_r. reflexivity.
+Qed.
+
+(* ---------- sort ---------- *)
+Lemma run_sort_fold k dir cap T cs : forall sp data ss,
+  run (SSort k dir cap :: T) (StSort sp data :: ss) cs =
+  let st := fold_left (sort_step E get k dir) cs (sp, data) in
+  let '(ss2, o) := feed_all T ss (flush E dir (snd st)) in o ++ complete T ss2.
+Proof.
+  induction cs as [|c cs IH]; intros sp data ss.
+  - reflexivity.
+  - cbn [Chain.run fold_left]. rewrite process_sort. cbn [app].
+    rewrite IH. destruct (sort_step E get k dir (sp, data) c) as [sp1 d1]. reflexivity.
+Qed.
+
+Section WithOrder.
+Hypothesis cmp_refl : forall a, jcmpS a a = Eq.
+Hypothesis cmp_antisym : forall a b, jcmpS a b = CompOpp (jcmpS b a).
+Hypothesis cmp_trans_le : forall a b c, jcmpS a b <> Gt -> jcmpS b c <> Gt -> jcmpS a c <> Gt.
+Hypothesis cmp_eq_l : forall a b c, jcmpS a b = Eq -> jcmpS a c = jcmpS b c.
+
+Lemma run_sort_nocap k dir T ss cs : good_tail T ->
+  run (SSort k dir None :: T) (StSort None [] :: ss) cs = run T ss (sort_spec E get k dir cs).
+Proof.
+  intros Hg. rewrite run_sort_fold. cbv zeta.
+  rewrite (sorter_spec_nocap E get cmp_refl cmp_antisym cmp_trans_le cmp_eq_l).
+  rewrite (run_feed_all T (good_tail_dab T Hg)). reflexivity.
+Qed.
+
+Lemma firstn_skipn_firstn {A} (l : list A) : forall (s t n : nat), s + t <= n ->
+  firstn t (skipn s (firstn n l)) = firstn t (skipn s l).
+Proof.
+  induction l as [|x l IH]; intros s t n H.
+  - rewrite firstn_nil, !skipn_nil. reflexivity.
+  - destruct n as [|n].
+    + assert (s = 0 /\ t = 0) as [-> ->] by lia. reflexivity.
+    + destruct s as [|s].
+      * cbn [firstn skipn]. destruct t as [|t]; [reflexivity|]. cbn [firstn]. f_equal.
+        apply (IH 0 t n). lia.
+      * cbn [firstn skipn]. apply IH. lia.
+Qed.
+
+Lemma run_sort_cap k dir n sk lim post ss cs : nb post = true -> (sk + lim <= n)%N ->
+  run (SSort k dir (Some n) :: SLimit sk (Some lim) :: post) (StSort (Some n) [] :: StLimit 0 0 :: ss) cs =
+  run (SLimit sk (Some lim) :: post) (StLimit 0 0 :: ss) (sort_spec E get k dir cs).
+Proof.
+  intros Hnb Hle. rewrite run_sort_fold. cbv zeta.
+  rewrite (sorter_spec_cap E get cmp_refl cmp_antisym cmp_trans_le cmp_eq_l).
+  rewrite <- (run_feed_all _ (dab_limit sk lim post)).
+  rewrite !(run_limit sk (Some lim) post ss _ Hnb). cbn [stage_spec]. unfold limit_spec.
+  rewrite firstn_skipn_firstn by lia. reflexivity.
+Qed.
+End WithOrder.
+
+(* ---------- group / merge (they must be the last stage before the printer) ---------- *)
+Lemma group_push_add k v d : group_push k v d = group_add k v d.
+Proof. induction d as [|[k' l] d IH]; cbn; [reflexivity|]. rewrite IH. reflexivity. Qed.
+
+Definition group_step (k : E) (d : list (str * list json)) (c : ctx) :=
+  match get k c with Some (JStr n) => group_add n (build c) d | _ => d end.
+
+Lemma run_group_fold k cs : forall data ss,
+  run [SGroup k] (StGroup data :: ss) cs =
+  [new_with_no_context (JObj (map (fun kl => (fst kl, JArr (snd kl))) (fold_left (group_step k) cs data)))].
+Proof.
+  induction cs as [|c cs IH]; intros data ss.
+  - reflexivity.
+  - cbn [Chain.run Chain.process fold_left]. unfold group_step at 2.
+    destruct (get k c) as [[| | n | | |]|]; cbn [app]; rewrite ?IH, ?group_push_add; reflexivity.
+Qed.
+Lemma run_group k ss cs : run [SGroup k] (StGroup [] :: ss) cs = stage_spec E get (SGroup k) cs.
+Proof. rewrite run_group_fold. reflexivity. Qed.
+
+Lemma run_merge_fold cs : forall data ss,
+  run [SMerge] (StMerge data :: ss) cs = [new_with_no_context (JArr (data ++ map build cs))].
+Proof.
+  induction cs as [|c cs IH]; intros data ss.
+  - cbn. rewrite app_nil_r. reflexivity.
+  - cbn [Chain.run Chain.process app map]. rewrite IH, <- app_assoc. reflexivity.
+Qed.
+Lemma run_merge ss cs : run [SMerge] (StMerge [] :: ss) cs = stage_spec E get SMerge cs.
+Proof. rewrite run_merge_fold. reflexivity. Qed.
+
+(* ---------- the whole pipeline ---------- *)
+Definition cap_ok (cap : option N) (T : list stage) : Prop :=
+  match cap with
+  | None => True
+  | Some n => exists s lim post, T = SLimit s (Some lim) :: post /\ nb post = true /\ (s + lim <= n)%N
+  end.
+
+(* the shapes Master::go builds: buffering sorters are followed by a tail that either never stops the
+   reader or is headed by the limiter; a capacity is only given to the sorter next to the limiter;
+   the limiter is followed by stages that never stop; group/merge is the last stage *)
+Fixpoint wfp (sts : list stage) : Prop :=
+  match sts with
+  | [] => True
+  | SSort _ _ cap :: T => good_tail T /\ cap_ok cap T /\ wfp T
+  | SLimit _ _ :: T => nb T = true /\ wfp T
+  | SGroup _ :: T | SMerge :: T => T = []
+  | _ :: T => wfp T
+  end.
+
+Section Main.
+Hypothesis cmp_refl : forall a, jcmpS a a = Eq.
+Hypothesis cmp_antisym : forall a b, jcmpS a b = CompOpp (jcmpS b a).
+Hypothesis cmp_trans_le : forall a b c, jcmpS a b <> Gt -> jcmpS b c <> Gt -> jcmpS a c <> Gt.
+Hypothesis cmp_eq_l : forall a b c, jcmpS a b = Eq -> jcmpS a c = jcmpS b c.
+
+Theorem run_spec : forall sts, wfp sts -> forall cs,
+  run sts (map (init_state E) sts) cs = spec E get sts cs.
+Proof.
+  induction sts as [|s T IH]; intros Hwf cs.
+  - cbn [map spec]. induction cs as [|c cs IHc]; [reflexivity|]. cbn [Chain.run Chain.process app]. rewrite IHc. reflexivity.
+  - destruct s as [vs ds|e|e|n e| |k dir cap|sk tk|k| ]; cbn [map init_state spec]; cbn [wfp] in Hwf.
+    + rewrite run_preset. apply IH, Hwf.
+    + rewrite run_split. apply IH, Hwf.
+    + rewrite run_filter. apply IH, Hwf.
+    + rewrite run_select. apply IH, Hwf.
+    + rewrite run_uniq. apply IH, Hwf.
+    + destruct Hwf as (Hg & Hc & Hw). destruct cap as [n|].
+      * destruct Hc as (s & lim & post & -> & Hnb & Hle). cbn [map init_state].
+        rewrite (run_sort_cap cmp_refl cmp_antisym cmp_trans_le cmp_eq_l) by assumption.
+        apply (IH Hw).
+      * rewrite (run_sort_nocap cmp_refl cmp_antisym cmp_trans_le cmp_eq_l) by assumption.
+        apply IH, Hw.
+    + destruct Hwf as (Hnb & Hw). rewrite run_limit by assumption. apply IH, Hw.
+    + subst T. cbn [map spec]. apply run_group.
+    + subst T. cbn [map spec]. apply run_merge.
+Qed.
+End Main.
+
+(* ---------- corollaries used by the property files ---------- *)
+Lemma spec_app a b cs : spec E get (a ++ b) cs = spec E get b (spec E get a cs).
+Proof. revert cs. induction a as [|s a IH]; intros cs; [reflexivity|]. cbn [app spec]. apply IH. Qed.
+
+(* sorting capacities removed *)
+Definition uncap (s : stage) : stage := match s with SSort k d _ => SSort k d None | s => s end.
+Lemma stage_spec_uncap s cs : stage_spec E get (uncap s) cs = stage_spec E get s cs.
+Proof. destruct s; reflexivity. Qed.
+Lemma spec_uncap sts cs : spec E get (map uncap sts) cs = spec E get sts cs.
+Proof. revert cs. induction sts as [|s sts IH]; intros cs; [reflexivity|]. cbn [map spec]. rewrite stage_spec_uncap. apply IH. Qed.
+
+(* record locality: stages whose specification is a flat_map *)
+Definition stateless (s : stage) : bool :=
+  match s with SPreSet _ _ | SSplit _ | SFilter _ | SSelect _ _ => true | _ => false end.
+
+Lemma stage_spec_stateless_app s a b : stateless s = true ->
+  stage_spec E get s (a ++ b) = stage_spec E get s a ++ stage_spec E get s b.
+Proof.
+  destruct s; try discriminate; intros _; cbn [stage_spec].
+  - apply map_app.
+  - apply flat_map_app.
+  - apply filter_app.
+  - apply map_app.
+Qed.
+Lemma spec_stateless_app sts : forallb stateless sts = true -> forall a b,
+  spec E get sts (a ++ b) = spec E get sts a ++ spec E get sts b.
+Proof.
+  induction sts as [|s sts IH]; intros H a b; [reflexivity|].
+  cbn [forallb] in H. apply andb_prop in H as [Hs Ht]. cbn [spec].
+  rewrite stage_spec_stateless_app by exact Hs. apply IH, Ht.
+Qed.
+Lemma spec_stateless_nil sts : forallb stateless sts = true -> spec E get sts [] = [].
+Proof.
+  induction sts as [|s sts IH]; intros H; [reflexivity|].
+  cbn [forallb] in H. apply andb_prop in H as [Hs Ht]. cbn [spec].
+  destruct s; try discriminate; cbn [stage_spec map flat_map filter]; apply IH, Ht.
+Qed.
+Lemma spec_stateless_local sts : forallb stateless sts = true -> forall cs,
+  spec E get sts cs = flat_map (fun c => spec E get sts [c]) cs.
+Proof.
+  intros H cs. induction cs as [|c cs IH]; [apply spec_stateless_nil, H|].
+  change (c :: cs) with ([c] ++ cs). rewrite spec_stateless_app by exact H. cbn [flat_map app]. rewrite IH. reflexivity.
+Qed.
+Lemma stateless_wfp sts : forallb stateless sts = true -> wfp sts.
+Proof.
+  induction sts as [|s sts IH]; intros H; [exact I|].
+  cbn [forallb] in H. apply andb_prop in H as [Hs Ht]. destruct s; try discriminate; cbn [wfp]; apply IH, Ht.
+Qed.
+
+(* once the chain has answered Break, what follows in the input is irrelevant *)
+Lemma run_break_prefix sts ss cs ss1 o : feed sts cs ss = (ss1, o, Break) -> forall rest,
+  run sts ss (cs ++ rest) = o ++ complete sts ss1.
+Proof.
+  intros H rest. rewrite run_feed, feed_app, H. reflexivity.
+Qed.
+Lemma run_break_prefix' sts ss cs ss1 o : feed sts cs ss = (ss1, o, Break) -> forall rest,
+  run sts ss (cs ++ rest) = run sts ss cs.
+Proof.
+  intros H rest. rewrite (run_break_prefix _ _ _ _ _ H), run_feed, H. reflexivity.
+Qed.
+
+(* the limiter answers Break exactly when its quota is used up *)
+Lemma limit_break sk lim post : nb post = true -> forall cs skd pd ss,
+  (skd <= sk)%N -> (pd <= lim)%N ->
+  snd (feed (SLimit sk (Some lim) :: post) cs (StLimit skd pd :: ss)) =
+  if (N.to_nat (sk - skd) + N.to_nat (N.max 1 (lim - pd)) <=? length cs)%nat then Break else Continue.
+Proof.
+  intros Hnb cs. induction cs as [|c cs IH]; intros skd pd ss Hs Hp.
+  - cbn [length]. destruct (Nat.leb_spec (N.to_nat (sk - skd) + N.to_nat (N.max 1 (lim - pd))) 0); [lia|reflexivity].
+  - rewrite feed_cons. cbn [Chain.process length].
+    destruct (N.ltb_spec skd sk) as [Hlt|Hge].
+    + specialize (IH (skd + 1)%N pd ss ltac:(lia) Hp).
+      destruct (feed (SLimit sk (Some lim) :: post) cs (StLimit (skd + 1) pd :: ss)) as [[ss2 o2] d2].
+      cbn [snd] in *. rewrite IH.
+      destruct (Nat.leb_spec (N.to_nat (sk - (skd + 1)) + N.to_nat (N.max 1 (lim - pd))) (length cs));
+      destruct (Nat.leb_spec (N.to_nat (sk - skd) + N.to_nat (N.max 1 (lim - pd))) (S (length cs))); try reflexivity; lia.
+    + destruct (N.leb_spec lim pd) as [Hl|Hl].
+      * cbn [snd]. destruct (Nat.leb_spec (N.to_nat (sk - skd) + N.to_nat (N.max 1 (lim - pd))) (S (length cs))); [reflexivity|lia].
+      * destruct (process post ss c) as [[ss1 o] d].
+        destruct (N.leb_spec lim (pd + 1)) as [Hl2|Hl2].
+        { cbn [snd]. destruct (Nat.leb_spec (N.to_nat (sk - skd) + N.to_nat (N.max 1 (lim - pd))) (S (length cs))); [reflexivity|lia]. }
+        { specialize (IH skd (pd + 1)%N ss1 Hs ltac:(lia)).
+          destruct (feed (SLimit sk (Some lim) :: post) cs (StLimit skd (pd + 1) :: ss1)) as [[ss2 o2] d2].
+          cbn [snd] in *. rewrite IH.
+          destruct (Nat.leb_spec (N.to_nat (sk - skd) + N.to_nat (N.max 1 (lim - (pd + 1)))) (length cs));
+          destruct (Nat.leb_spec (N.to_nat (sk - skd) + N.to_nat (N.max 1 (lim - pd))) (S (length cs))); try reflexivity; lia. }
+Qed.
+
+(* stateless stages and --unique forward the decision of their successor over whole inputs *)
+Lemma feed_stateless_decision s f : stateless_sim s f -> forall sts st cs ss,
+  snd (feed (s :: sts) cs (st :: ss)) = snd (feed sts (flat_map f cs) ss).
+Proof.
+  intros H sts st cs ss. rewrite (stateless_feed s f H).
+  destruct (feed sts (flat_map f cs) ss) as [[? ?] ?]. reflexivity.
+Qed.
+Lemma feed_uniq_decision sts cs seen ss :
+  snd (feed (SUniq :: sts) cs (StUniq seen :: ss)) = snd (feed sts (dedup_from E seen cs) ss).
+Proof.
+  destruct (feed_uniq sts cs seen ss) as [seen' ->].
+  destruct (feed sts (dedup_from E seen cs) ss) as [[? ?] ?]. reflexivity.
+Qed.
+
+(* streaming prefixes: stateless stages and unique *)
+Definition streaming (s : stage) : bool :=
+  match s with SPreSet _ _ | SSplit _ | SFilter _ | SSelect _ _ | SUniq => true | _ => false end.
+
+Lemma feed_streaming_decision pre : forallb streaming pre = true -> forall T cs ssT,
+  snd (feed (pre ++ T) cs (map (init_state E) pre ++ ssT)) = snd (feed T (spec E get pre cs) ssT).
+Proof.
+  induction pre as [|s pre IH]; intros H T cs ssT; [reflexivity|].
+  cbn [forallb] in H. apply andb_prop in H as [Hs Ht].
+  destruct s; try discriminate; cbn [app map init_state spec].
+  - rewrite (feed_stateless_decision _ _ (sim_preset vs ds)), IH by exact Ht.
+    unfold f_preset. rewrite flat_map_single. reflexivity.
+  - rewrite (feed_stateless_decision _ _ (sim_split e)), IH by exact Ht. reflexivity.
+  - rewrite (feed_stateless_decision _ _ (sim_filter e)), IH by exact Ht.
+    unfold f_filter. rewrite flat_map_filter. reflexivity.
+  - rewrite (feed_stateless_decision _ _ (sim_select name e)), IH by exact Ht.
+    unfold f_select. rewrite flat_map_single. reflexivity.
+  - rewrite feed_uniq_decision, IH by exact Ht. reflexivity.
+Qed.
+
+End ChainProofs.
